@@ -97,7 +97,16 @@ fn fail(out: &mut RunOut, key: &str, text: String) {
 }
 
 /// One complete execution for max speculative count `m`.
-fn one_execution(m: usize, ties: bool, ch: &mut Chooser) -> RunOut {
+/// Extra knobs of one execution: `zero` = retry interval 0 (every timer expires at once: all 1+max executions must
+/// be started before anything else can happen); `fixed` = no choice points, follow this fixed continuation.
+#[derive(Clone, Copy, Default)]
+struct Knobs {
+    zero: bool,
+    fixed: Option<usize>,
+}
+
+
+fn one_execution_k(m: usize, ties: bool, ch: &mut Chooser, knobs: Knobs) -> RunOut {
     let mut out = RunOut::default();
     let res = vcore::catch(std::panic::AssertUnwindSafe(|| {
         vasync::run(|| async {
@@ -114,12 +123,17 @@ fn one_execution(m: usize, ties: bool, ch: &mut Chooser) -> RunOut {
                 async move { rx.await.expect("harness dropped a sender") }
             };
             let mut ex = vasync::Exec::new();
-            let (main, slot) = ex.spawn_with_output("execute", scylla::verif::exec::speculative_execute(m, INTERVAL, generator));
+            let (main, slot) = ex.spawn_with_output("execute", scylla::verif::exec::speculative_execute(m, if knobs.zero { Duration::ZERO } else { INTERVAL }, generator));
             let mut model = SpecModel::new(m);
             let mut timer_dead = false;
+            if knobs.zero {
+                // interval 0: the timer expires immediately, again and again, until nothing may be started
+                while model.tick() == 1 {}
+                timer_dead = true;
+            }
             let tick_cap = m + 3;
             let mut first = true;
-            let mut after_tie: Option<usize> = None;
+            let mut after_tie: Option<usize> = knobs.fixed;
             loop {
                 if let Err(e) = ex.run_until_quiescent_default(10_000).await {
                     fail(out, "spec:livelock", e);
@@ -296,6 +310,10 @@ fn one_execution(m: usize, ties: bool, ch: &mut Chooser) -> RunOut {
     out
 }
 
+fn case_json_k(m: usize, knobs: Knobs) -> Value {
+    json!({"leg":"spec-loop","max_speculative":m,"ties":false,"zero_interval":knobs.zero,"fixed":knobs.fixed,"choices":[]})
+}
+
 fn case_json(m: usize, ties: bool, choices: &[usize]) -> Value {
     json!({"leg":"spec-loop","max_speculative":m,"ties":ties,"choices":choices})
 }
@@ -311,7 +329,8 @@ fn main() {
         let ties = case["ties"].as_bool().unwrap_or(false);
         let choices: Vec<usize> = case["choices"].as_array().map(|a| a.iter().map(|v| v.as_u64().unwrap_or(0) as usize).collect()).unwrap_or_default();
         let mut ch = Chooser::new(choices);
-        let out = one_execution(m, ties, &mut ch);
+        let knobs = Knobs { zero: case["zero_interval"].as_bool().unwrap_or(false), fixed: case["fixed"].as_u64().map(|x| x as usize) };
+        let out = one_execution_k(m, ties, &mut ch, knobs);
         if let Some(d) = &ch.diverged {
             vcore::machinery_error(&format!("the recorded schedule does not fit this build: {d}"));
         }
@@ -333,7 +352,11 @@ fn main() {
     let mut sweeps: Vec<(usize, bool)> = (0..=if thorough { 5 } else { 4 }).map(|m| (m, false)).collect();
     let tie_max = if thorough { 4 } else { 3 };
     sweeps.extend((0..=tie_max).map(|m| (m, true)));
-    for (m, ties) in sweeps {
+    let mut sweeps: Vec<(usize, bool, bool)> = sweeps.into_iter().map(|(m, t)| (m, t, false)).collect();
+    // retry interval 0 (what a percentile-based policy yields on an idle histogram): every order of completions
+    sweeps.extend((0..=4).map(|m| (m, false, true)));
+    for (m, ties, zero) in sweeps {
+        let knobs = Knobs { zero, fixed: None };
         let states = AtomicU64::new(0);
         let transitions = AtomicU64::new(0);
         let audited = AtomicU64::new(0);
@@ -341,7 +364,7 @@ fn main() {
         let divergence: Mutex<Option<String>> = Mutex::new(None);
         let opts = DfsOpts { bound: 0, jobs, max_executions: 50_000_000, wall: Duration::from_secs(if thorough { 1500 } else { 90 }), ..Default::default() };
         let res = explore(&opts, |ch| {
-            let out = one_execution(m, ties, ch);
+            let out = one_execution_k(m, ties, ch, knobs);
             // new tree nodes of this execution: the choice points after its last non-default choice
             let plen = ch.trace.iter().rposition(|p| p.chosen != 0).map(|i| i + 1).unwrap_or(0);
             states.fetch_add((ch.trace.len() - plen) as u64 + 1, Ordering::Relaxed);
@@ -356,7 +379,7 @@ fn main() {
             let choices = ch.choices();
             if out.ties == 0 && vcore::fnv64(format!("{choices:?}").as_bytes()) % audit_k == 0 {
                 let mut ch2 = Chooser::new(choices.clone());
-                let again = one_execution(m, ties, &mut ch2);
+                let again = one_execution_k(m, ties, &mut ch2, knobs);
                 if again.trace != out.trace || ch2.diverged.is_some() {
                     *divergence.lock().unwrap() = Some(format!("m={m} choices={choices:?}: {:?} vs {:?}", out.trace, again.trace));
                 } else {
@@ -376,7 +399,7 @@ fn main() {
         }
         if let Some(c) = &res.capped {
             capped = true;
-            r.note(&format!("capped_m{m}_ties{ties}"), json!(c));
+            r.note(&format!("capped_m{m}_ties{ties}_zero{zero}"), json!(c));
         }
         total_exec += res.executions;
         r.eval(res.executions);
@@ -384,7 +407,7 @@ fn main() {
         r.transitions.fetch_add(transitions.load(Ordering::Relaxed), Ordering::Relaxed);
         r.traces_validated.fetch_add(audited.load(Ordering::Relaxed), Ordering::Relaxed);
         r.nontrivial(nontrivial.load(Ordering::Relaxed));
-        r.counters.add(&format!("executions_m{m}{}", if ties { "_ties" } else { "" }), res.executions);
+        r.counters.add(&format!("executions_m{m}{}{}", if ties { "_ties" } else { "" }, if zero { "_zero_interval" } else { "" }), res.executions);
         r.counters.max("max_choice_points", res.max_points as u64);
         // every violation is replayed twice before it is reported
         for v in res.violations.iter() {
@@ -392,19 +415,40 @@ fn main() {
             let mut same = 0;
             for _ in 0..2 {
                 let mut ch = Chooser::new(v.choices.clone());
-                let again = one_execution(m, ties, &mut ch);
+                let again = one_execution_k(m, ties, &mut ch, knobs);
                 if again.verdict.as_ref().map(|(k, _)| k.as_str()) == Some(key) {
                     same += 1;
                 }
             }
             if same == 2 {
                 r.traces_validated.fetch_add(2, Ordering::Relaxed);
-                r.violation(key, &format!("{text} | max_speculative={m} ties={ties} schedule={:?}", v.choices), case_json(m, ties, &v.choices));
+                r.violation(key, &format!("{text} | max_speculative={m} ties={ties} zero_interval={zero} schedule={:?}", v.choices), {
+                    let mut c = case_json(m, ties, &v.choices);
+                    c["zero_interval"] = json!(zero);
+                    c
+                });
             } else if !ties {
                 vcore::machinery_error(&format!("violation {key} did not replay deterministically (m={m}, choices {:?})", v.choices));
             } else {
                 // a tie resolved the other way on replay: report only what reproduces
                 r.counters.add("tie_violations_not_reproduced", 1);
+            }
+        }
+    }
+    // ---- long single schedules: more executions than any round limit (65, 1100), three fixed continuations
+    for m in [64usize, 1099] {
+        for c in 0..3 {
+            for zero in [false, true] {
+                let knobs = Knobs { zero, fixed: Some(c) };
+                let out = one_execution_k(m, false, &mut Chooser::new(vec![]), knobs);
+                r.eval(1);
+                r.states.fetch_add(out.events as u64 + 1, Ordering::Relaxed);
+                r.transitions.fetch_add(out.events as u64, Ordering::Relaxed);
+                r.counters.add("long_schedules", 1);
+                r.counters.max("max_executions_started_long", out.started as u64);
+                if let Some((k, t)) = out.verdict {
+                    r.violation(&k, &format!("{t} | long schedule max_speculative={m} zero_interval={zero} continuation={c}"), case_json_k(m, knobs));
+                }
             }
         }
     }
@@ -416,7 +460,7 @@ fn main() {
     if oc.len() < 8 && r.violation_count() == 0 {
         vcore::machinery_error("vacuity: fewer than 8 distinct (max, result kind, started) outcomes");
     }
-    r.set_rule("E-ASYNC, full enumeration (no deviation bound): max speculative count 0..=4 (<= 5 executions; 0..=5 in the thorough tier) x every sequence of events {complete(i, success|definitive|ignorable|plan-exhausted), timer tick} with polling to quiescence after each; second sweep adds timer/completion ties. evaluations = complete schedules; states = choice points + terminal states of the schedule tree, transitions = alternatives at those points; traces_validated = schedules re-executed from their recorded choices with an identical observation trace (1-in-k deterministic subset + 2x per violation). distinct_nontrivial = schedules with a tick while an execution was running AND an ignorable completion (timer re-arm and last-error bookkeeping both in play).");
+    r.set_rule("E-ASYNC, full enumeration (no deviation bound): max speculative count 0..=4 (<= 5 executions; 0..=5 in the thorough tier) x every sequence of events {complete(i, success|definitive|ignorable|plan-exhausted), timer tick} with polling to quiescence after each; second sweep adds timer/completion ties; third sweep: retry interval 0 (max 0..=4, all completion orders); plus 12 long fixed schedules with 65 and 1100 executions. evaluations = complete schedules; states = choice points + terminal states of the schedule tree, transitions = alternatives at those points; traces_validated = schedules re-executed from their recorded choices with an identical observation trace (1-in-k deterministic subset + 2x per violation). distinct_nontrivial = schedules with a tick while an execution was running AND an ignorable completion (timer re-arm and last-error bookkeeping both in play).");
     r.set_exhaustive(!capped);
     r.note("executions_total", json!(total_exec));
     r.note("retry_interval_ms", json!(INTERVAL.as_millis() as u64));
